@@ -407,22 +407,37 @@ def classify_diags(res, text, labels, ranges):
 
 
 def scan_assumptions(text):
-    """Mechanical scan for everything that is assumed rather than proved."""
+    """Mechanical scan for everything that is assumed rather than proved: every external_body /
+    assume_specification / assume / admit / uninterp item, named with its enclosing impl."""
     out = []
     lines = text.split("\n")
+    impl_stack = []  # (indent, header)
     for n, l in enumerate(lines, 1):
         s = l.strip()
+        indent = len(l) - len(l.lstrip())
+        m = re.match(r"(?:pub\s+)?(?:unsafe\s+)?impl(?:<[^>]*>)?\s+(.*?)\s*(?:where\b.*)?\{?$", s)
+        if m and not s.startswith("//"):
+            while impl_stack and impl_stack[-1][0] >= indent:
+                impl_stack.pop()
+            impl_stack.append((indent, m.group(1).strip()))
+        elif s == "}" and impl_stack and impl_stack[-1][0] == indent:
+            impl_stack.pop()
         if s.startswith("//"):
             continue
-        if "external_body" in s or "assume_specification" in s or re.search(r"\bassume\s*\(", s) or re.search(r"\badmit\s*\(", s) or "external_type_specification" in s or "#[verifier::external" in s or "uninterp" in s and "spec fn" in s:
-            # name the item that follows
+        if "external_body" in s or "assume_specification" in s or re.search(r"\bassume\s*\(", s) or re.search(r"\badmit\s*\(", s) or "external_type_specification" in s or "#[verifier::external" in s or ("uninterp" in s and "spec fn" in s):
+            what = "uninterpreted spec fn" if "uninterp" in s else ("assume_specification" if "assume_specification" in s else ("external_body" if "external" in s else "assume/admit"))
             nxt = ""
-            for k in range(n - 1, min(n + 6, len(lines))):
-                m = re.search(r"\b(?:fn|struct|enum)\s+(\w+)", lines[k])
-                if m:
-                    nxt = m.group(0)
-                    break
-            out.append(f"{s.split('(')[0].strip(' #[]')} -> {nxt}".strip())
+            if "assume_specification" in s:
+                mm = re.search(r"\[\s*([^\]]+?)\s*\]", s)
+                nxt = mm.group(1) if mm else s[:80]
+            else:
+                for k in range(n - 1, min(n + 6, len(lines))):
+                    mm = re.search(r"\b(fn|struct|enum)\s+(\w+)", lines[k])
+                    if mm:
+                        owner = impl_stack[-1][1] + "::" if (impl_stack and mm.group(1) == "fn") else ""
+                        nxt = f"{mm.group(1)} {owner}{mm.group(2)}"
+                        break
+            out.append(f"{what}: {nxt}".strip())
     return out
 
 
